@@ -90,6 +90,7 @@ def build():
                     out.append(z3.Implies(z3.And(r, k), all_reg.t(k.arg(0), r.arg(1))))
         return out
 
+    mono.encodes = {"all_registered-mono"}
     lib.extra_instantiators.append(mono)
 
     def keys_of(m, g):
